@@ -130,6 +130,22 @@ def refuted_edges(body, ex, hyp, variants=None):
                 if edge_truth is not None and edge_truth != want:
                     out.add((s, tg))
             continue
+        if strip_refs(d) in hyp and body.term(s)["discr_ty"] not in ("bool", "isize") and isinstance(hyp[strip_refs(d)][1], (int, tuple, set, frozenset)) \
+                and not isinstance(hyp[strip_refs(d)][1], bool):
+            # `match x { 9 => .., 2 => .., _ => .. }` on an integer the hypothesis speaks about
+            rel, v = hyp[strip_refs(d)]
+            listed = [v2 for v2, _ in t["cases"]]
+            for tg, vals, oth in edges:
+                if rel == "eq" and isinstance(v, int):
+                    feasible = (v in vals) or (oth and v not in listed)
+                elif rel == "ne":
+                    excl = set(v) if isinstance(v, (tuple, set, frozenset)) else {v}
+                    feasible = oth or any(x not in excl for x in vals)
+                else:
+                    feasible = True
+                if not feasible:
+                    out.add((s, tg))
+            continue
         if d[0] == "bin" and d[1] in ("Eq", "Ne"):
             a, c = strip_refs(d[2]), strip_refs(d[3])
             x, k = (a, _as_value(c)) if a in hyp else ((c, _as_value(a)) if c in hyp else (None, None))
@@ -247,3 +263,68 @@ def refuted_edges_concrete(body, ex, env):
             if tg != take:
                 out.add((s, tg))
     return out, decided
+
+
+STD_ENUMS = {"std::option::Option": {0: "None", 1: "Some"}, "std::result::Result": {0: "Ok", 1: "Err"},
+             "std::cmp::Ordering": {-1: "Less", 0: "Equal", 1: "Greater"}}
+
+
+def _fold_known_switches(body, ex, variants_of=None):
+    """Edges refuted by discriminants that are compile-time known on this (possibly restricted)
+    body: `switch(const)`, `switch(discriminant(<aggregate literal>))`."""
+    out = set()
+    facts = body.facts
+    for s in body.normal:
+        if s not in body.reachable or body.term(s)["k"] != "switch":
+            continue
+        d = strip_refs(ex.switch_discr(s))
+        v = None
+        if d[0] == "const" and isinstance(d[1], (int, bool)):
+            v = int(d[1])
+        elif d[0] == "discr":
+            a = strip_refs(d[1])
+            if a[0] == "named":
+                a = a[2]
+            if a[0] == "agg" and a[2] and a[1] not in ("tuple", "array", "closure"):
+                try:
+                    names = facts.enum_variant_by_discr(a[1])
+                except Exception:
+                    names = STD_ENUMS.get(a[1])
+                if names:
+                    for dv, n in names.items():
+                        if n == a[2]:
+                            v = dv
+        if v is None:
+            continue
+        t = body.term(s)
+        take = t["otherwise"]
+        for val, tg in t["cases"]:
+            if val == v:
+                take = tg
+        for tg in body.succ.get(s, []):
+            if tg != take:
+                out.add((s, tg))
+    return out
+
+
+def specialise(body, hyp, variants=None, keep=None, rounds=6):
+    """Partial evaluation of a body under a hypothesis: repeatedly (1) refute the switch edges that
+    contradict the hypothesis or a discriminant that has become a known constant, (2) restrict the
+    body to the remaining edges, which shrinks reaching definitions so that values selected by the
+    refuted branches (`let sq = match colour {..}`, `Option` results of an inlined helper, named
+    boolean conditions) collapse to the one definition that is still feasible.
+    Returns (restricted body, its Exprs, all refuted edges).  Sound: only edges whose condition is
+    decided by the hypothesis are removed."""
+    from .expr import Exprs
+    b = body
+    ex = Exprs(b, keep=keep)
+    dead = set()
+    for _ in range(rounds):
+        new = set(refuted_edges(b, ex, hyp, variants)) | _fold_known_switches(b, ex)
+        new -= dead
+        if not new:
+            break
+        dead |= new
+        b = body.restrict(dead)
+        ex = Exprs(b, keep=keep)
+    return b, ex, dead
